@@ -29,6 +29,10 @@ def run(ctx):
     if not r.ok:
         print(r.out[-3000:])
         raise vf.Inconclusive("WarcWrite model violates %s (specification error)" % r.violated)
+
+    neg = ctx.tlc("WarcWrite", "C02_model_noretrywait.cfg", workers=2, name="model-noretrywait")
+    if neg.ok or "StoredBeforeFinish" not in (neg.violated or ""):
+        raise vf.Inconclusive("WarcWrite without the wait on retried attempts does not violate StoredBeforeFinish: the model does not discriminate")
     ctx.build_harness(("zeno-verif",))
     if ctx.replay:
         traces = [("replay", ctx.replay)]
